@@ -1,16 +1,29 @@
 //! [nom](https://crates.io/crates/nom)-based parser for [`Command`]s.
 use nom::{
     branch::alt,
-    bytes::complete::{is_a, tag, tag_no_case},
+    bytes::complete::{is_a, tag},
     character::complete::{digit1, hex_digit1},
     combinator::{all_consuming, complete, map, map_res, opt, rest, value},
     number::complete::float,
+    error::ErrorKind,
     sequence::{delimited, preceded, terminated, tuple},
-    IResult,
+    Err as NomErr, IResult,
 };
 
 use super::{Command, InputRegister};
 use crate::tui::Part;
+
+/// ASCII case-insensitive [`tag`].
+///
+/// `nom::bytes::complete::tag_no_case` compares the lowercase expansions of input
+/// and keyword char by char and stops at the shorter of the two, so that e.g.
+/// `quİ` (U+0130, two bytes) was taken for `quit` and `set UİO` for `set UIO1`.
+fn tag_no_case<'a>(keyword: &'static str) -> impl Fn(&'a str) -> IResult<&'a str, &'a str> {
+    move |input: &'a str| match input.get(..keyword.len()) {
+        Some(head) if head.eq_ignore_ascii_case(keyword) => Ok((&input[keyword.len()..], head)),
+        _ => Err(NomErr::Error((input, ErrorKind::Tag))),
+    }
+}
 
 fn ws(input: &str) -> IResult<&str, &str> {
     is_a(" \t")(input)
